@@ -7,6 +7,7 @@ import (
 	"go/token"
 	"go/types"
 	"os"
+	"runtime/pprof"
 	"sort"
 	"strconv"
 	"strings"
@@ -55,6 +56,7 @@ type result struct {
 	Deadlocks    int               `json:"deadlocks"`
 	Switches     int               `json:"thread_switches"`
 	Solver       string            `json:"solver"`
+	ForkStats    map[string]int    `json:"fork_stats"`
 }
 
 func main() {
@@ -74,9 +76,15 @@ func main() {
 	seed := flag.Int64("seed", 1, "")
 	var paramFlags multiFlag
 	flag.Var(&paramFlags, "param", "name=value (repeatable)")
+	cpuprof := flag.String("cpuprofile", "", "")
 	stopFirst := flag.Bool("stopfirst", false, "stop at first violation outside known regions")
 	flag.Parse()
 
+	if *cpuprof != "" {
+		f, _ := os.Create(*cpuprof)
+		pprof.StartCPUProfile(f)
+		defer pprof.StopCPUProfile()
+	}
 	params := map[string]uint64{}
 	for _, p := range paramFlags {
 		kv := strings.SplitN(p, "=", 2)
@@ -197,6 +205,7 @@ func main() {
 		}
 	}
 	res.Stubs = m.stubsUsed
+	res.ForkStats = m.forkStats
 	res.Deadlocks = m.deadlocks
 	res.Switches = m.switches
 	// dedupe inconclusive
@@ -267,9 +276,14 @@ func (m *Machine) runPath(hp *ssa.Package, fn *ssa.Function, res *result) (compl
 	m.fsEvents = nil
 	m.clock = 0
 	m.liveGo = 0
+	m.recycleBig()
 	m.solver.PopAll()
+	if m.paths%128 == 0 {
+		m.solver.Reset()
+		resetTerms()
+	}
 	m.solver.Push()
-	m.globals = map[*ssa.Global]*value{}
+	m.globals = make(map[*ssa.Global]*value, m.nGlobals+8)
 	main := m.newThread("main", true)
 	m.cur = main
 	defer m.killThreads()
@@ -290,13 +304,23 @@ func (m *Machine) runPath(hp *ssa.Package, fn *ssa.Function, res *result) (compl
 			case interpBug:
 				fmt.Fprintln(os.Stderr, "interpreter bug in goroutine:", r.msg, r.stack)
 				m.incon = append(m.incon, "interpreter bug: "+r.msg)
+			case threadKill:
 			default:
-				panic(r)
+				st := strings.Split(stackOf(), "\n")
+				if len(st) > 40 {
+					st = st[:40]
+				}
+				if m.bugs < 3 {
+					fmt.Fprintln(os.Stderr, "interpreter bug:", r, "\n", strings.Join(st, "\n"))
+				}
+				m.bugs++
+				m.incon = append(m.incon, fmt.Sprintf("interpreter bug: %v", r))
 			}
 		}
 	}()
 	m.call(nil, hp.Func("init"), nil)
 	m.call(nil, fn, nil)
+	m.nGlobals = len(m.globals)
 	return true
 }
 
